@@ -4,6 +4,7 @@ import (
 	"fmt"
 	"math/rand"
 	"sync"
+	"sync/atomic"
 	"time"
 
 	"verif/internal/core"
@@ -254,6 +255,7 @@ func (c *evCase) keyOf(r evRow) any {
 
 type c01ptCase struct {
 	core.CaseRef
+	Stall     bool   `json:"one_slow_delivery,omitempty"`
 	SQL       string `json:"sql"`
 	SizeMs    int    `json:"size_ms"`
 	Producers int    `json:"producers"`
@@ -309,10 +311,26 @@ func execC01PT(ctx *core.Ctx, ref core.CaseRef, r *rand.Rand) {
 	viol := func(kind, detail string) {
 		ctx.Violate(core.Violation{Kind: kind, Attrs: map[string]string{"kind": "tumbling", "time": "processing"}, Detail: detail + "\n  sql: " + c.SQL, Case: c})
 	}
-	s, err := eng.New(c.SQL, eng.Opts{})
+	opts := eng.Opts{}
+	c.Stall = ref.Index%3 == 1
+	if c.Stall {
+		opts.WindowOut = 1 // block strategy: the trigger goroutine waits for the consumer
+	}
+	s, err := eng.New(c.SQL, opts)
 	if err != nil {
 		viol("tumbling.execute_error", err.Error())
 		return
+	}
+	if c.Stall {
+		// one slow delivery (a reconnecting consumer) that lasts several window sizes: the processing-time
+		// trigger misses ticks, rows keep arriving for windows two and more ahead of the one being emitted
+		var calls int32
+		stall := time.Duration(c.SizeMs) * time.Millisecond * time.Duration(5+r.Intn(4))
+		s.AddSyncSink(func([]map[string]any) {
+			if atomic.AddInt32(&calls, 1) == 3 {
+				time.Sleep(stall)
+			}
+		})
 	}
 	rec := eng.Attach(s)
 	type sent struct {
